@@ -62,7 +62,7 @@ func genC11(tier string, seed int64) (*Family, error) {
 		PkgPath: modPath + "/zz_verif/" + pkg,
 		Files:   map[string]string{},
 		Bounds:  map[string]interface{}{"rules_per_set": "2 (3 for mix / inverse models)", "calls_per_engine": 2, "return_shapes": "value, bare, failing return expression, none, fault; nested in if / for / forRange"},
-		Cfg:     interp.Config{MaxSteps: 3_000_000, TrackFields: []string{"engine.Gengine.returnResult"}},
+		Cfg:     interp.Config{MaxSteps: 3_000_000, TrackFields: []string{"engine.Gengine.returnResult"}, TrackAllocs: []string{"*"}},
 		Functions: []string{"engine.Gengine).addResult", "base.RuleEntity).Execute", "base.Statements).Evaluate", "base.ReturnStatement).Evaluate",
 			"base.ForStmt).Evaluate", "base.ForRangeStmt).Evaluate", "engine.Gengine).ExecuteDAGModel"},
 	}
@@ -100,6 +100,7 @@ func %s() {
 	vnd.Event("ret")
 	res, _ := eng.GetRulesResultMap()
 	vnd.RequireJoined("ret")
+	vnd.NoRaces("var:")
 	vnd.StopIfViolated()
 	vnd.Reach("first call")
 	checkResult(res, n, base, g, q, h, f, v)
@@ -121,6 +122,43 @@ func %s() {
 }
 `, name, m.fn, name, m.n, q1, h1, opts, m.call, f2, m.call)
 		fam.Instances = append(fam.Instances, Instance{Func: name, Stratum: m.fn, Desc: "result map after two calls of " + m.fn, Expect: []string{"first call", "second call"}})
+	}
+	// selected entry points with an unknown name in front of a single existing one (and of two)
+	for _, m := range engineModels() {
+		if !strings.Contains(m.call, namesLit(2)) && !strings.Contains(m.call, namesLit(3)) {
+			continue
+		}
+		for k, lst := range []string{"[]string{\"zz\", \"r1\"}", "[]string{\"zz\", \"r1\", \"r0\"}", "[]string{\"r1\", \"zz\"}"} {
+			name := fmt.Sprintf("U_%s_%d", m.name, k)
+			call := strings.ReplaceAll(strings.ReplaceAll(m.call, namesLit(3), lst), namesLit(2), lst)
+			fmt.Fprintf(&b, `
+// %s with names %s: entries only under the names of rules that returned
+func %s() {
+	n := %d
+	s := fixedSal(n)
+	dc := newDC(nil)
+	g, f, v := symFlags("g", n), symFlags("f", n), symVals("v", n)
+	addFlags(dc, "g", g)
+	addFlags(dc, "q", allFalse(n))
+	addFlags(dc, "h", allFalse(n))
+	addFlags(dc, "f", f)
+	addVals(dc, "v", v)
+	rb := buildText(dc, rulesTextOpt(n, s, "g"))
+	eng := engine.NewGengine()
+	base := countsOf(n)
+	err := %s
+	_ = err
+	vnd.Event("ret")
+	res, _ := eng.GetRulesResultMap()
+	vnd.RequireJoined("ret")
+	vnd.StopIfViolated()
+	vnd.Reach("first call")
+	vnd.Reach("second call")
+	checkResult(res, n, base, g, allFalse(n), allFalse(n), f, v)
+}
+`, m.fn, lst, name, m.n, call)
+			fam.Instances = append(fam.Instances, Instance{Func: name, Stratum: m.fn + ":unknown-name", Desc: m.fn + " with names " + lst, Expect: []string{"first call"}})
+		}
 	}
 	// a call through another entry point must not leave entries of the previous call behind
 	second := []struct{ id, call string }{
